@@ -61,7 +61,7 @@ MECH = ["nutree.tree:Tree.__enter__", "nutree.tree:Tree.__exit__", "nutree.tree:
 MIN_NONTRIVIAL = {"quick": 200, "thorough": 900}
 MIN_COUNTERS = {"quick": {"blocked_events": 150, "snapshots_checked": 1000}, "thorough": {"blocked_events": 1500, "snapshots_checked": 20000}}
 
-OPS = ["save_stream", "save_path", "save_zip", "copy", "filtered", "copy_pred", "copy_to", "to_dict_list", "to_dotfile", "to_dotfile_path", "with"]
+OPS = ["save_stream", "save_path", "save_zip", "copy", "filtered", "copy_pred", "copy_to", "copy_to_shallow", "to_dict_list", "to_dotfile", "to_dotfile_path", "with"]
 OPS_WITH_CALLBACK = ["save_stream", "filtered", "copy_pred", "to_dict_list", "to_dotfile"]
 STYLES = ["relabel", "rebuild", "mixed"]
 G, C = 3, 3  # groups x children
@@ -320,6 +320,10 @@ def instrument(t, log):
     return ok
 
 
+class _TopOnly(list):
+    """labels of a shallow snapshot: the complete answer is the list of top nodes"""
+
+
 def labels_of(op, result):
     """Extract the list of node labels from a snapshot result."""
     if op in ("save_stream", "save_path", "save_zip"):
@@ -331,7 +335,7 @@ def labels_of(op, result):
                 continue
             out.append(data["s"] if isinstance(data, dict) and "s" in data else data.get("str") if isinstance(data, dict) else data)
         return out
-    if op in ("copy", "filtered", "copy_pred", "copy_to", "with"):
+    if op in ("copy", "filtered", "copy_pred", "copy_to", "copy_to_shallow", "with"):
         return result
     if op == "to_dict_list":
         out = []
@@ -350,6 +354,7 @@ def labels_of(op, result):
 
 def check_snapshot(labels, allowed_versions):
     """Returns None if the labels form exactly one committed state, else a message."""
+    top_only = isinstance(labels, _TopOnly)
     labels = [getattr(l, "name", l) if type(l).__name__ == "FileSystemEntry" else l for l in labels]
     if TYPED.get("fs"):
         # str(entry) / dict entries of the file-system mappers: pick the name out of the rendering
@@ -359,8 +364,9 @@ def check_snapshot(labels, allowed_versions):
         nms = sorted(l.split("@v")[0] for l in labels)
     except Exception:
         return f"unparsable snapshot {labels!r}"
-    if nms != sorted(ALLNAMES):
-        return f"snapshot holds {len(nms)} of {len(ALLNAMES)} nodes ({nms[:6]}...)"
+    want_names = sorted(f"g{g}" for g in range(G)) if top_only else sorted(ALLNAMES)
+    if nms != want_names:
+        return f"snapshot holds {len(nms)} of {len(want_names)} nodes ({nms[:6]}...)"
     if len(vers) != 1:
         return f"snapshot mixes versions {sorted(vers)}: {labels}"
     v = int(next(iter(vers)))
@@ -432,6 +438,11 @@ def run_op(op, t, tmpdir, hook=None, dst=None):
             dst = type(t)("dst")
         t.copy_to(dst)
         return [n.data for n in dst]
+    if op == "copy_to_shallow":
+        if dst is None:
+            dst = type(t)("dst")
+        t.copy_to(dst, deep=False)  # the top nodes only - still a snapshot of one committed state
+        return _TopOnly(n.data for n in dst)
     if op == "to_dict_list":
         if hook is not None:
             def mapper(node, data):
@@ -1522,6 +1533,7 @@ def all_points(tier):
                 pts.append({"kind": "B", "op": op, "style": style, "k": k})
     for nest in (1, 2, 3):
         pts.append({"kind": "C", "nest": nest})
+        pts.append({"kind": "C", "nest": nest, "fs": True})  # a FileSystemTree is re-entrant like any other tree
     for op in OPS:
         for owner_op in (("save_stream", "save_path") if tier == "quick" else ("save_stream", "save_path", "save_zip", "copy", "to_dict_list")):
             for style in (("rebuild",) if tier == "quick" else STYLES):
@@ -1561,6 +1573,8 @@ def all_points(tier):
     typed_pts = []
     for pt in pts:
         if pt["kind"] == "R" and pt.get("dw"):
+            continue
+        if pt.get("fs"):
             continue
         if pt["kind"] == "G":
             continue  # TypedTree.save() writes its output while it still holds the lock: there is no unlocked output phase
